@@ -18,6 +18,7 @@ import KafkaVerif.Model.ReaderLoopLTS
 import KafkaVerif.Model.PullReader
 import KafkaVerif.Model.ReaderWorld
 import KafkaVerif.Model.ByteReader
+import KafkaVerif.Model.ByteHeader
 
 namespace KV.OracleC02
 open KV KV.C02
@@ -101,6 +102,8 @@ def parseFault (s : String) : Option (Nat × Fault) :=
   | [i, k] => do
     let idx ← i.toNat?
     if k.startsWith "cut" then pure (idx, .cut (← (k.drop 3).toString.toNat?))
+    -- OffsetOutOfRange followed by an unanswered ListOffsets: readOffsets fails at its deadline → conn.Close(); break readLoop
+    else if k == "err1h" then pure (idx, .hang)
     else if k.startsWith "err" then pure (idx, .err (← (k.drop 3).toString.toNat?))
     else if k == "hang" then pure (idx, .hang)
     else if k == "move" then pure (idx, .move)
@@ -175,7 +178,7 @@ def tokCfg : TokCfg :=
     dg1 := fun m => digestOf m.key m.value (if m.magic = 0 then -1 else m.ts) [] }
 
 /-- the byte-level Go reads (Model/ByteReader.lean: readVarInt / readInt8 / runFunc / readMessageHeader with the
-`remain` accounting) walking a message set of uncompressed v2 batches: the 61 header bytes, then `count` records, each
+`remain` accounting) walking a message set of uncompressed v2 batches and v0/v1 messages: the header (`BR.readHeaderB`), then `count` records, each
 with `remain` = what is left of the whole set; errShortRead ends the walk like it ends the batch -/
 def brWalk : Nat → Option (H2 × Nat) → Bytes → List Tok
   | 0, _, _ => []
@@ -183,29 +186,23 @@ def brWalk : Nat → Option (H2 × Nat) → Bytes → List Tok
     if bs.isEmpty then []
     else match st with
       | none =>
-        match Spec.RB.magicOf bs with
-        | none => [.cut]
-        | some mg =>
-          if mg = 2 then
-            if bs.length < 61 then [.cut]
-            else match readH2 bs with
-              | none => [.cut]
-              | some (h, rest) =>
-                Tok.h2 h.base h.lod h.count.toNat (h.attrs % 8 != 0) h.plen ::
-                  brWalk fuel (if h.count.toNat = 0 then none else some (h, h.count.toNat)) rest
-          else
-            -- a v0/v1 message: the fixed header, then readMessageV1's `readBytesWith(key)`, `readBytesWith(val)`
-            if bs.length < (if mg = 1 then 26 else 18) then [.cut]
-            else match readH1 bs with
-              | none => [.cut]
-              | some (h, rest) =>
-                let ts : Int := if mg = 1 then (match RW.readI64 (bs.drop 18) with | some (t, _) => t | none => 0) else -1
-                Tok.h1 h.magic.toNat h.off (h.attrs % 8 != 0) ::
-                  if rest.isEmpty then [] else      -- nothing left: the stream ends, no `cut` token
-                  match BR.readBodyV1 ⟨rest, rest.length⟩ with
-                  | .error _ => [.cut]
-                  | .ok ((k, v), r') =>
-                    Tok.kv (digestOf k v ts []) (rest.length - r'.bs.length) :: brWalk fuel none r'.bs
+        -- message_reader.go readHeader field by field (Model/ByteHeader.lean), `remain` = what is left of the set
+        match BR.readHeaderB ⟨bs, bs.length⟩ with
+        | .error _ => [.cut]
+        | .ok (.bad _, _) => [.cut]
+        | .ok (.v2 h, r') =>
+          Tok.h2 h.base h.lod h.count.toNat (h.attrs % 8 != 0) h.plen ::
+            brWalk fuel (if h.count.toNat = 0 then none else some (h, h.count.toNat)) r'.bs
+        | .ok (.v1 h, r') =>
+          -- a v0/v1 message: the fixed header, then readMessageV1's `readBytesWith(key)`, `readBytesWith(val)`
+          let rest := r'.bs
+          let ts : Int := if h.magic = 1 then (match RW.readI64 (bs.drop 18) with | some (t, _) => t | none => 0) else -1
+          Tok.h1 h.magic.toNat h.off (h.attrs % 8 != 0) ::
+            if rest.isEmpty then [] else      -- nothing left: the stream ends, no `cut` token
+            match BR.readBodyV1 ⟨rest, rest.length⟩ with
+            | .error _ => [.cut]
+            | .ok ((k, v), r'') =>
+              Tok.kv (digestOf k v ts []) (rest.length - r''.bs.length) :: brWalk fuel none r''.bs
       | some (h, k) =>
         match BR.readRecordV2 ⟨bs, bs.length⟩ with
         | .error _ => [.cut]
